@@ -18,7 +18,8 @@ use std::collections::BTreeMap;
 use std::io::{BufRead, BufReader, Write};
 use std::process::{Child, ChildStdin, Command, Stdio};
 use std::sync::mpsc::{channel, Receiver, RecvTimeoutError};
-use std::time::Duration;
+use std::sync::{Arc, Mutex};
+use std::time::{Duration, Instant};
 
 pub const XMOD: u64 = 1 << 21;
 
@@ -129,6 +130,11 @@ pub fn worker() {
         if dead {
             continue;
         }
+        if l == "sync" {
+            writeln!(out, "end").unwrap();
+            out.flush().unwrap();
+            continue;
+        }
         let ans = match Op::parse(l) {
             None => {
                 dead = true;
@@ -183,10 +189,18 @@ pub fn worker() {
 // ------------------------------------------------------------------------------------------------
 // parent side: worker process with a watchdog
 
+/// lines the worker has answered so far + when the last one arrived (filled by the reader thread)
+struct Inbox {
+    lines: Vec<String>,
+    last: Instant,
+}
+
 struct Proc {
     child: Child,
     stdin: ChildStdin,
-    rx: Receiver<String>,
+    inbox: Arc<Mutex<Inbox>>,
+    /// the reader thread signals `ready`, `end`, `!…` lines and the end of the stream
+    rx: Receiver<()>,
 }
 
 pub struct Real {
@@ -197,6 +211,55 @@ pub struct Real {
 
 fn hang_ms() -> u64 {
     std::env::var("H_C09_HANG_MS").ok().and_then(|v| v.parse().ok()).unwrap_or(2000)
+}
+
+enum Got {
+    /// the marker line (`ready` / `end`) arrived; answers before it
+    Done(Vec<String>),
+    /// an answer starting with `!` arrived (it is the last element)
+    Stopped(Vec<String>),
+    /// nothing new for `timeout`; answers so far
+    Silent(Vec<String>),
+    /// worker gone; answers so far
+    Gone(Vec<String>),
+}
+
+impl Proc {
+    /// Wait until the worker has said `marker`, or stopped, or has been silent for `timeout`.
+    /// The worker flushes every answer, the reader thread collects them; this thread only wakes up for
+    /// markers and every 50 ms (cheap when the machine is busy: no per-op hand-over between three threads).
+    fn collect(&mut self, marker: &str, timeout: Duration) -> Got {
+        let mut gone = false;
+        loop {
+            let sig = self.rx.recv_timeout(Duration::from_millis(50));
+            let mut ib = self.inbox.lock().unwrap();
+            if let Some(pos) = ib.lines.iter().position(|l| l == marker || l.starts_with('!')) {
+                let rest = ib.lines.split_off(pos + 1);
+                let mut got = std::mem::replace(&mut ib.lines, rest);
+                if got[pos] == marker {
+                    got.pop();
+                    return Got::Done(got);
+                }
+                return Got::Stopped(got);
+            }
+            if gone {
+                return Got::Gone(std::mem::take(&mut ib.lines));
+            }
+            match sig {
+                Err(RecvTimeoutError::Disconnected) => gone = true, // look once more at what arrived
+                _ => {
+                    if ib.last.elapsed() >= timeout {
+                        return Got::Silent(std::mem::take(&mut ib.lines));
+                    }
+                }
+            }
+        }
+    }
+
+    fn send(&mut self, txt: &str) -> bool {
+        self.inbox.lock().unwrap().last = Instant::now();
+        self.stdin.write_all(txt.as_bytes()).and_then(|_| self.stdin.flush()).is_ok()
+    }
 }
 
 impl Real {
@@ -215,12 +278,20 @@ impl Real {
             .expect("spawn hmap-worker");
         let stdin = child.stdin.take().unwrap();
         let stdout = child.stdout.take().unwrap();
+        let inbox = Arc::new(Mutex::new(Inbox { lines: Vec::new(), last: Instant::now() }));
+        let ib = inbox.clone();
         let (tx, rx) = channel();
         std::thread::spawn(move || {
             for l in BufReader::new(stdout).lines() {
                 match l {
                     Ok(l) => {
-                        if tx.send(l).is_err() {
+                        let signal = l == "ready" || l == "end" || l.starts_with('!');
+                        {
+                            let mut g = ib.lock().unwrap();
+                            g.lines.push(l);
+                            g.last = Instant::now();
+                        }
+                        if signal && tx.send(()).is_err() {
                             break;
                         }
                     }
@@ -228,7 +299,7 @@ impl Real {
                 }
             }
         });
-        Proc { child, stdin, rx }
+        Proc { child, stdin, inbox, rx }
     }
 
     fn kill(&mut self) {
@@ -238,63 +309,62 @@ impl Real {
         }
     }
 
+    fn fresh(&mut self) {
+        for _ in 0..3 {
+            if self.proc_.is_none() {
+                self.proc_ = Some(Real::spawn());
+                self.respawns += 1;
+            }
+            let p = self.proc_.as_mut().unwrap();
+            // drop whatever an earlier, stopped sequence left behind, then reset
+            p.inbox.lock().unwrap().lines.clear();
+            if p.send("reset\n") {
+                if let Got::Done(_) = p.collect("ready", Duration::from_secs(20)) {
+                    return;
+                }
+            }
+            self.kill();
+        }
+        panic!("hmap-worker does not start");
+    }
+
     /// Answers of the real map, one per op executed; the last one may be `!panic`, `!hang`, `!bad`.
     pub fn run(&mut self, ops: &[String]) -> Vec<String> {
         let mut out = Vec::with_capacity(ops.len());
-        if self.proc_.is_none() {
-            self.proc_ = Some(Real::spawn());
-            self.respawns += 1;
-        }
-        // reset
-        {
-            let p = self.proc_.as_mut().unwrap();
-            let ok = p.stdin.write_all(b"reset\n").and_then(|_| p.stdin.flush()).is_ok();
-            let ready = ok && matches!(p.rx.recv_timeout(Duration::from_secs(10)), Ok(ref s) if s == "ready");
-            if !ready {
-                self.kill();
-                self.proc_ = Some(Real::spawn());
-                self.respawns += 1;
-                let p = self.proc_.as_mut().unwrap();
-                p.stdin.write_all(b"reset\n").and_then(|_| p.stdin.flush()).expect("worker reset");
-                let r = p.rx.recv_timeout(Duration::from_secs(10));
-                assert!(matches!(r, Ok(ref s) if s == "ready"), "hmap-worker does not start");
-            }
-        }
-        'outer: for chunk in ops.chunks(256) {
+        self.fresh();
+        for chunk in ops.chunks(512) {
             let mut buf = String::new();
             for o in chunk {
                 buf.push_str(o);
                 buf.push('\n');
             }
-            {
-                let p = self.proc_.as_mut().unwrap();
-                if p.stdin.write_all(buf.as_bytes()).and_then(|_| p.stdin.flush()).is_err() {
+            buf.push_str("sync\n");
+            let timeout = self.timeout;
+            let p = self.proc_.as_mut().unwrap();
+            if !p.send(&buf) {
+                out.push("!panic".to_string());
+                self.kill();
+                return out;
+            }
+            match p.collect("end", timeout) {
+                Got::Done(v) => out.extend(v),
+                Got::Stopped(v) => {
+                    out.extend(v);
+                    return out;
+                }
+                Got::Silent(v) => {
+                    // the op after the last answer has not returned for `timeout`
+                    out.extend(v);
                     out.push("!hang".to_string());
                     self.kill();
-                    break 'outer;
+                    return out;
                 }
-            }
-            for _ in chunk {
-                let r = self.proc_.as_mut().unwrap().rx.recv_timeout(self.timeout);
-                match r {
-                    Ok(a) => {
-                        let stop = a.starts_with('!');
-                        out.push(a);
-                        if stop {
-                            break 'outer;
-                        }
-                    }
-                    Err(RecvTimeoutError::Timeout) => {
-                        out.push("!hang".to_string());
-                        self.kill();
-                        break 'outer;
-                    }
-                    Err(RecvTimeoutError::Disconnected) => {
-                        // the worker died (abort, stack overflow, …): report like a panic
-                        out.push("!panic".to_string());
-                        self.kill();
-                        break 'outer;
-                    }
+                Got::Gone(v) => {
+                    // the worker died (abort, stack overflow, …): report like a panic
+                    out.extend(v);
+                    out.push("!panic".to_string());
+                    self.kill();
+                    return out;
                 }
             }
         }
@@ -647,28 +717,60 @@ fn make_pool(r: &mut Rng) -> Vec<u64> {
     pool
 }
 
-/// the family: N keys of one residue class, remove some, keys of another class, then an absent key
+/// the family: N keys of one residue class, remove some, keys of another class (as many as fit without
+/// triggering a rebuild, or fewer), then an absent key
 fn family_line(r: &mut Rng, n: usize) -> Vec<Op> {
     let mut ops = Vec::new();
-    let a: Vec<u64> = (0..n as u64).map(|i| 16 + 16 * i).collect();
+    let mut sh = Shadow::new();
+    let s1 = 1u64 << r.below(3);
+    let s2 = 1u64 << r.below(3);
+    let a: Vec<u64> = (0..n as u64).map(|i| 16 + 16 * s1 * i).collect();
     for (i, k) in a.iter().enumerate() {
         ops.push(Op::Ins(*k, i as u64 + 1));
     }
-    let nrem = 1 + r.below((n as u64 / 2).max(1)) as usize;
+    let quarter = cap_for(n) / 4; // that many tombstones and the table can fill up without a rebuild
+    let nrem = if r.chance(1, 2) && n >= quarter { quarter + r.below((n - quarter) as u64 + 1) as usize } else { 1 + r.below((n as u64 * 2 / 3).max(1)) as usize };
     let mut removed = Vec::new();
     let start = r.below(n as u64) as usize;
+    let step = if r.chance(1, 2) { 1 } else { 2 };
     for i in 0..nrem {
-        let k = a[(start + i * if r.chance(1, 2) { 1 } else { 2 }) % n];
+        let k = a[(start + i * step) % n];
         if !removed.contains(&k) {
             removed.push(k);
             ops.push(Op::Rem(k));
         }
     }
-    let m = r.range(1, n as i64 + 4) as u64;
-    for i in 0..m {
-        ops.push(Op::Ins(24 + 16 * i, 100 + i));
+    for o in &ops {
+        sh.apply(o);
     }
-    let absent = 16 + 16 * (n as u64 + 40 + r.below(50)) + if r.chance(1, 2) { 8 } else { 0 };
+    // second class: up to the point where one more insertion would rebuild the table
+    let room = (sh.cap - sh.cap / 4).saturating_sub(sh.entries) as u64;
+    let m = if r.chance(2, 3) { room } else { r.below(room + 3) };
+    let tomb = |sh: &Shadow| sh.slots.iter().filter(|&&k| k == 1).count();
+    let avoid_reuse = r.chance(3, 4);
+    let mut i = 0u64;
+    let mut done = 0u64;
+    while done < m && i < 400 {
+        let op = Op::Ins(24 + 16 * s2 * i, 100 + i);
+        i += 1;
+        if sh.predict(&op) != Pred::Fine {
+            // even an insertion can spin (no empty slot left and the key is new): end the line with it
+            ops.push(op);
+            return ops;
+        }
+        if avoid_reuse && i < 300 {
+            // prefer keys that land in an empty slot, so that the tombstones stay
+            let mut t = Shadow { slots: sh.slots.clone(), entries: sh.entries, cap: sh.cap, epoch: sh.epoch, rt_epoch: sh.rt_epoch };
+            t.apply(&op);
+            if tomb(&t) < tomb(&sh) {
+                continue;
+            }
+        }
+        sh.apply(&op);
+        ops.push(op);
+        done += 1;
+    }
+    let absent = 16 + 16 * (4 * n as u64 + 200 + r.below(50)) + if r.chance(1, 2) { 8 } else { 0 };
     ops.push(if r.chance(2, 3) { Op::Get(absent) } else { Op::Rem(absent) });
     ops
 }
@@ -714,26 +816,55 @@ fn random_line(r: &mut Rng, may_hang: bool, may_panic: bool) -> Vec<Op> {
             }
             _ => {}
         }
-        let roll = r.below(100);
+        let mut roll = r.below(100);
+        if may_hang && ops.len() > target_len / 4 {
+            // no rebuilds any more, stay at a stable size: tombstones pile up
+            if roll < 8 {
+                roll += 40;
+            }
+            phase = 2;
+        }
         let pick = |r: &mut Rng, v: &[u64]| v[r.below(v.len() as u64) as usize];
         let mut op = if roll < 4 {
             Op::Epoch
         } else if roll < 8 {
             Op::Reloc(2 * r.below(XMOD / 2) + 1, r.below(XMOD))
         } else {
-            let want_insert = match phase {
+            let mut want_insert = match phase {
                 0 => roll < 75,
                 1 => roll < 20,
                 _ => roll < 48,
             };
-            let want_remove = match phase {
+            let mut want_remove = match phase {
                 0 => roll >= 75 && roll < 82,
                 1 => roll >= 20 && roll < 80,
                 _ => roll >= 48 && roll < 82,
             };
+            if may_hang && sh.cap > 0 && ops.len() > target_len / 4 {
+                // stay inside the band in which neither insert nor remove rebuilds the table
+                if sh.entries + 2 > sh.cap - sh.cap / 4 {
+                    want_insert = false;
+                    want_remove = roll < 90;
+                } else if sh.entries <= sh.cap / 4 + 1 {
+                    want_insert = roll < 90;
+                    want_remove = false;
+                }
+            }
             if want_insert {
                 if !absent.is_empty() && !r.chance(1, 6) {
-                    Op::Ins(pick(r, &absent), val)
+                    let mut k = pick(r, &absent);
+                    if may_hang {
+                        // prefer a key that lands in an empty slot (tombstones stay, empty slots get used up)
+                        let tomb = |sh: &Shadow| sh.slots.iter().filter(|&&k| k == 1).count();
+                        for _ in 0..8 {
+                            let mut t = Shadow { slots: sh.slots.clone(), entries: sh.entries, cap: sh.cap, epoch: sh.epoch, rt_epoch: sh.rt_epoch };
+                            if t.apply(&Op::Ins(k, val)) != Pred::Fine || tomb(&t) >= tomb(&sh) {
+                                break;
+                            }
+                            k = pick(r, &absent);
+                        }
+                    }
+                    Op::Ins(k, val)
                 } else if !live.is_empty() {
                     Op::Ins(pick(r, &live), val) // value update of a present key
                 } else {
@@ -794,9 +925,9 @@ pub fn gen(n: usize) {
     let mut out = std::io::BufWriter::new(stdout.lock());
     for i in 0..n {
         // a few lines may run into the known tombstone hang (each costs one watchdog period in hmap-run)
-        let ops = if i % 80 == 7 {
-            family_line(&mut r, 4 + (i / 80) % 21)
-        } else if i % 150 == 31 {
+        let ops = if i % 100 == 7 {
+            family_line(&mut r, 4 + (i / 100) % 21)
+        } else if i % 200 == 31 {
             random_line(&mut r, true, false)
         } else if i % 211 == 101 {
             random_line(&mut r, false, true)
